@@ -221,7 +221,7 @@ var vfC05Pops = []int{0, 1, 2, 3, 4, 5, 6, 7, 8, 9, 15, 16, 17, 31, 32, 33, 63, 
 
 func vfC05gen(t *rapid.T) *vfC05Case {
 	c := &vfC05Case{}
-	c.Shape = rapid.SampledFrom([]string{"mixed", "mixed", "one-prefix", "many-prefixes", "edge-prefixes", "empty", "dups"}).Draw(t, "shape")
+	c.Shape = rapid.SampledFrom([]string{"mixed", "mixed", "one-prefix", "many-prefixes", "edge-prefixes", "empty", "dups", "big-bucket"}).Draw(t, "shape")
 	c.Seed = rapid.Uint64().Draw(t, "seed")
 	c.Order = rapid.SampledFrom([]string{"grouped", "interleaved", "reverse"}).Draw(t, "order")
 	c.MetaN = rapid.SampledFrom([]int{0, 1, 3, 20}).Draw(t, "metaN")
@@ -236,6 +236,25 @@ func vfC05gen(t *rapid.T) *vfC05Case {
 		nb = 0
 	}
 	used := map[uint16]bool{}
+	if c.Shape == "big-bucket" {
+		// one prefix filled around / beyond the writer's per-bucket reservation (16 000 entries), its neighbours
+		// in both byte orders lightly populated
+		p := rapid.Uint16().Draw(t, "bigPrefix")
+		big := rapid.SampledFrom([]int{15999, 16000, 16001, 16002, 16500, 32001}).Draw(t, "bigPop")
+		d := 0
+		if rapid.IntRange(0, 3).Draw(t, "bigDup") == 0 {
+			d = rapid.IntRange(1, 40).Draw(t, "bigDups")
+		}
+		c.Buckets = append(c.Buckets, vfC05Bucket{Prefix: p, Pop: big, Dups: d})
+		used[p] = true
+		for _, q := range []uint16{p + 1, p - 1, p + 256, p - 256} {
+			if !used[q] && rapid.IntRange(0, 3).Draw(t, "neighbour") > 0 {
+				used[q] = true
+				c.Buckets = append(c.Buckets, vfC05Bucket{Prefix: q, Pop: rapid.IntRange(1, 12).Draw(t, "neighbourPop")})
+			}
+		}
+		nb = rapid.IntRange(0, 5).Draw(t, "nbExtra")
+	}
 	for i := 0; i < nb; i++ {
 		var p uint16
 		if c.Shape == "edge-prefixes" && i < 4 {
@@ -291,7 +310,7 @@ func vfC05classes(c *vfC05Case) (bool, []string) {
 func TestVfC05(t *testing.T) {
 	run := vfh.Begin("C05", "current")
 	defer run.End(t)
-	run.Require("shape:mixed", "shape:one-prefix", "shape:many-prefixes", "shape:edge-prefixes", "shape:empty", "shape:dups", "pop=2^k", "pop=0")
+	run.Require("shape:big-bucket", "shape:mixed", "shape:one-prefix", "shape:many-prefixes", "shape:edge-prefixes", "shape:empty", "shape:dups", "pop=2^k", "pop=0")
 	rapid.Check(t, func(rt *rapid.T) {
 		c := vfC05gen(rt)
 		run.SetLast(c)
